@@ -267,3 +267,197 @@ Lemma lines_inj a b : lines a = lines b -> a = b.
 Proof.
   intro H. rewrite <- (unlines_lines a), <- (unlines_lines b), H. reflexivity.
 Qed.
+
+(* ---------------------------------------------------------------- lines, statement by statement *)
+
+(* the separator read from the source is the single byte NL *)
+Lemma lines_sep_shape : lines_sep = [NL].
+Proof. reflexivity. Qed.
+
+Lemma split_after_nonempty c d : split_after c d <> [].
+Proof.
+  destruct d as [|b r]; simpl; [discriminate|].
+  destruct (beq b c); [discriminate|]. destruct (split_after c r); discriminate.
+Qed.
+
+(* drop an empty last piece, or append the message to a non-empty one *)
+Fixpoint fix_last (l : list bytes) : list line :=
+  match l with
+  | [] => []
+  | [a] => match a with [] => [] | _ => [a ++ no_newline_msg] end
+  | a :: r => a :: fix_last r
+  end.
+
+Lemma lines_fix_last d : lines d = fix_last (split_after NL d).
+Proof.
+  induction d as [|b r IH]; [reflexivity|].
+  simpl. destruct (beq b NL) eqn:E.
+  - rewrite IH. pose proof (split_after_nonempty NL r).
+    destruct (split_after NL r); [contradiction | reflexivity].
+  - rewrite IH. pose proof (split_after_nonempty NL r).
+    destruct (split_after NL r) as [|l ls]; [contradiction|].
+    destruct ls as [|l' ls]; simpl.
+    + destruct l; reflexivity.
+    + reflexivity.
+Qed.
+
+Lemma idx_snoc {A} (l : list A) z : idx (l ++ [z]) (length l) = Ok z.
+Proof. unfold idx. rewrite nth_error_app2, Nat.sub_diag by lia. reflexivity. Qed.
+
+Lemma upd_snoc {A} (l : list A) z v : upd (l ++ [z]) (length l) v = Ok (l ++ [v]).
+Proof. induction l as [|a l IH]; simpl; [reflexivity|]. rewrite IH. reflexivity. Qed.
+
+Lemma slice_snoc {A} (l : list A) z : slice (l ++ [z]) 0 (length l) = Ok l.
+Proof.
+  unfold slice. rewrite app_length. simpl.
+  destruct (Nat.leb_spec (length l) (length l + 1)); [|lia]. simpl.
+  rewrite Nat.sub_0_r, firstn_app, Nat.sub_diag, firstn_all. simpl. rewrite app_nil_r. reflexivity.
+Qed.
+
+Lemma fix_last_snoc l z :
+  fix_last (l ++ [z]) = l ++ match z with [] => [] | _ => [z ++ no_newline_msg] end.
+Proof.
+  induction l as [|a l IH]; [reflexivity|].
+  simpl. rewrite IH. destruct (l ++ [z]) eqn:E; [|reflexivity].
+  destruct l; discriminate.
+Qed.
+
+Lemma last_ops_fix_last (l : list bytes) : l <> [] ->
+  (do last <- idx l (length l - 1);
+   if bytes_eqb last [] then slice l 0 (length l - 1)
+   else upd l (length l - 1) (last ++ no_newline_msg)) = Ok (fix_last l).
+Proof.
+  intro H. destruct (exists_last H) as (init & z & ->).
+  rewrite app_length. simpl. replace (length init + 1 - 1) with (length init) by lia.
+  rewrite idx_snoc. simpl. rewrite fix_last_snoc.
+  destruct z as [|c z]; simpl.
+  - rewrite slice_snoc, app_nil_r. reflexivity.
+  - rewrite upd_snoc. reflexivity.
+Qed.
+
+(* the statement-level version of lines computes [lines] and never panics *)
+Theorem lines_go_eq d : lines_go d = Ok (lines d).
+Proof.
+  unfold lines_go. rewrite lines_sep_shape.
+  pose proof (split_after_nonempty NL d) as H.
+  unfold sub_chk. destruct (Nat.ltb_spec (length (split_after NL d)) 1) as [Hl | _].
+  - destruct (split_after NL d); [contradiction | simpl in Hl; lia].
+  - simpl. rewrite lines_fix_last. apply last_ops_fix_last. assumption.
+Qed.
+
+(* ---------------------------------------------------------------- what the four Fprintf calls print *)
+
+(* the arguments of the four calls, in the order the model passes them *)
+Lemma diff_fprintf_args_shape :
+  diff_fprintf_args =
+  [ [ [x6f;x6c;x64;x4e;x61;x6d;x65]; [x6e;x65;x77;x4e;x61;x6d;x65] ];   (* oldName, newName *)
+    [ [x6f;x6c;x64;x4e;x61;x6d;x65] ];                                  (* oldName *)
+    [ [x6e;x65;x77;x4e;x61;x6d;x65] ];                                  (* newName *)
+    [ [x63;x68;x75;x6e;x6b;x2e;x78]; [x63;x6f;x75;x6e;x74;x2e;x78];
+      [x63;x68;x75;x6e;x6b;x2e;x79]; [x63;x6f;x75;x6e;x74;x2e;x79] ] ]. (* chunk.x, count.x, chunk.y, count.y *)
+Proof. reflexivity. Qed.
+
+(* "diff old new\n--- old\n+++ new\n" *)
+Lemma render_header_shape oldName newName :
+  render_header oldName newName =
+  [x64; x69; x66; x66; x20] ++ oldName ++ [x20] ++ newName ++ [x0a] ++
+  [x2d; x2d; x2d; x20] ++ oldName ++ [x0a] ++
+  [x2b; x2b; x2b; x20] ++ newName ++ [x0a].
+Proof.
+  unfold render_header. cbv -[app dec].
+  repeat (progress (cbn [app]; rewrite <- ?app_assoc)). reflexivity.
+Qed.
+
+(* "@@ -sx,cx +sy,cy @@\n" then the chunk lines *)
+Lemma render_hunk_shape h :
+  render_hunk h =
+  [x40; x40; x20; x2d] ++ dec (sx h) ++ [x2c] ++ dec (cx h) ++
+  [x20; x2b] ++ dec (sy h) ++ [x2c] ++ dec (cy h) ++ [x20; x40; x40; x0a] ++
+  concat (map (fun tl => tag_byte (fst tl) :: snd tl) (body h)).
+Proof.
+  unfold render_hunk. cbv -[app dec concat map tag_byte sx cx sy cy body fst snd].
+  repeat (progress (cbn [app]; rewrite <- ?app_assoc)). reflexivity.
+Qed.
+
+(* the consumer (testscript doCmdCmp) hands name1, []byte(text1), name2, []byte(text2) to Diff *)
+Lemma cmp_diff_args_shape :
+  cmp_diff_args =
+  [ [x6e;x61;x6d;x65;x31]; [x5b;x5d;x62;x79;x74;x65;x28;x74;x65;x78;x74;x31;x29];
+    [x6e;x61;x6d;x65;x32]; [x5b;x5d;x62;x79;x74;x65;x28;x74;x65;x78;x74;x32;x29] ].
+Proof. reflexivity. Qed.
+
+(* ---------------------------------------------------------------- runs of context lines *)
+
+Lemma runs_from_ctx c l : runs_from c (tagged TCtx l) = [c + length l].
+Proof.
+  revert c. induction l as [|a l IH]; intro c; simpl.
+  - rewrite Nat.add_0_r. reflexivity.
+  - unfold tagged in IH. rewrite IH. f_equal. lia.
+Qed.
+
+Lemma runs_from_app b : forall c, exists pre k,
+  runs_from c b = pre ++ [k] /\ forall b', runs_from c (b ++ b') = pre ++ runs_from k b'.
+Proof.
+  induction b as [|tl b IH]; intro c; simpl.
+  - exists [], c. split; [reflexivity|]. intro; reflexivity.
+  - destruct (is_ctx tl).
+    + apply IH.
+    + destruct (IH 0) as (pre & k & E & F). exists (c :: pre), k. split.
+      * rewrite E. reflexivity.
+      * intro b'. rewrite F. reflexivity.
+Qed.
+
+Lemma runs_app b b' pre k : runs b = pre ++ [k] -> runs (b ++ b') = pre ++ runs_from k b'.
+Proof.
+  intro E. destruct (runs_from_app b 0) as (pre0 & k0 & E0 & F). unfold runs in *.
+  rewrite E in E0. apply app_inj_tail in E0 as [-> ->]. apply F.
+Qed.
+
+Definition all_change (ch : list (tag * line)) : bool := forallb (fun tl => negb (is_ctx tl)) ch.
+
+Lemma runs_from_changes ch : forall c, ch <> [] -> all_change ch = true ->
+  runs_from c ch = c :: repeat 0 (length ch - 1) ++ [0].
+Proof.
+  induction ch as [|t ch IH]; intros c Hne Hall; [contradiction|].
+  simpl in Hall. apply andb_true_iff in Hall as [Ht Hall].
+  simpl. destruct (is_ctx t); [discriminate|].
+  destruct ch as [|t' ch]; [reflexivity|].
+  rewrite IH by (auto; discriminate). simpl. rewrite Nat.sub_0_r. reflexivity.
+Qed.
+
+Lemma all_change_del_add xs ys : all_change (tagged TDel xs ++ tagged TAdd ys) = true.
+Proof.
+  unfold all_change. rewrite forallb_app. apply andb_true_iff. split.
+  - induction xs; simpl; auto.
+  - induction ys; simpl; auto.
+Qed.
+
+(* one pass of the loop body over the chunk: changed lines, then a run of l common lines *)
+Lemma runs_step ctext ch l pre cur :
+  runs ctext = pre ++ [cur] -> ch <> [] -> all_change ch = true ->
+  runs (ctext ++ ch) = (pre ++ cur :: repeat 0 (length ch - 1)) ++ [0] /\
+  runs ((ctext ++ ch) ++ tagged TCtx l) = (pre ++ cur :: repeat 0 (length ch - 1)) ++ [length l].
+Proof.
+  intros E Hne Hall.
+  assert (E1 : runs (ctext ++ ch) = (pre ++ cur :: repeat 0 (length ch - 1)) ++ [0]).
+  { rewrite (runs_app _ _ _ _ E), runs_from_changes by assumption.
+    rewrite <- app_assoc. reflexivity. }
+  split; [exact E1|].
+  rewrite (runs_app _ _ _ _ E1), runs_from_ctx. reflexivity.
+Qed.
+
+Lemma runs_from_no_change b : forall c, has_change b = false -> runs_from c b = [c + length b].
+Proof.
+  induction b as [|t b IH]; intros c H; simpl in *.
+  - rewrite Nat.add_0_r. reflexivity.
+  - apply orb_false_iff in H as [H1 H2]. destruct (is_ctx t); [|discriminate].
+    rewrite IH by assumption. f_equal. lia.
+Qed.
+
+(* a chunk with at least two runs has a changed line *)
+Lemma runs_has_change b lead inners trail : runs b = lead :: inners ++ [trail] -> has_change b = true.
+Proof.
+  intro E. destruct (has_change b) eqn:H; [reflexivity|].
+  unfold runs in E. rewrite runs_from_no_change in E by assumption.
+  destruct inners; discriminate.
+Qed.
